@@ -230,6 +230,16 @@ Theorem C01_run_Stream_matches_source :
   forall s p x m, Gen.KN_Stream.gen_run_Stream s p x m = of_option (update (KSource) s p x m).
 Proof. exact bridge_run_Stream. Qed.
 Print Assumptions C01_run_Stream_matches_source.
+Theorem C01_update_zip_matches_source :
+  forall lits maxsize s p x m, p < length (st_ports s) ->
+  Gen.KN_zip.gen_update_zip lits maxsize s p x m = update (KZip lits) s p x m.
+Proof. exact bridge_update_zip. Qed.
+Print Assumptions C01_update_zip_matches_source.
+Theorem C01_run_zip_matches_source :
+  forall lits maxsize s p x m, p < length (st_ports s) ->
+  Gen.KN_zip.gen_run_zip lits maxsize s p x m = of_option (update (KZip lits) s p x m).
+Proof. exact bridge_run_zip. Qed.
+Print Assumptions C01_run_zip_matches_source.
 Theorem C01_strip_has_no_effect : forall emit coro d l w, run_actions emit coro d (strip l) w = run_actions emit coro d l w.
 Proof. exact strip_run_actions. Qed.
 Print Assumptions C01_strip_has_no_effect.
